@@ -216,7 +216,7 @@ def run_sim(p, seed, strategy):
 
 
 def main():
-    seams.install()
+    seams.install(metrics=True)
     bad = 0
     for p in PROGRAMS:
         real = run_real(p)
